@@ -478,6 +478,97 @@ def s_request(vc):
         vc.ensure("nothing_attached.request_untouched", And(deep_eq(vc, fields, [list(x) for x in pre_fields]), not has_meta))
 
 
+# ---------------------------------------------------------------------------------------------
+# expiry: cookies.get_expiration_ts / is_expired (RFC 6265 5.2.1 / 5.2.2 / 5.3 step 3)
+
+CK = "mitmproxy.net.http.cookies"
+
+
+def _re_sym(vc, s, pat, build):
+    if vc.mode == "native" or not is_sym(s):
+        import re
+        return re.fullmatch(pat, s) is not None
+    z3 = _z3()
+    return SBool(z3.InRe(s.t, build(z3)))
+
+
+def is_decimal(vc, s):
+    return _re_sym(vc, s, r"[0-9]+", lambda z3: z3.Plus(_d(z3)))
+
+
+def is_negative_decimal(vc, s):
+    return _re_sym(vc, s, r"-[0-9]+", lambda z3: z3.Concat(_lit(z3, "-"), z3.Plus(_d(z3))))
+
+
+def all_zeros(vc, s):
+    return _re_sym(vc, s, r"0+", lambda z3: z3.Plus(_lit(z3, "0")))
+
+
+def is_lenient_number(vc, s):
+    """texts Python's int() accepts beyond RFC 6265's  ["-"] 1*DIGIT  (sign '+', blanks, underscores): left open"""
+    return _re_sym(vc, s, r"[ \t\n\r\x0b\x0c+_0-9-]*", lambda z3: z3.Star(z3.Union(_d(z3), *[_lit(z3, c) for c in " \t\n\r\x0b\x0c+_-"])))
+
+
+@scenario("is_expired", functions=[CK + ":is_expired", CK + ":get_expiration_ts"], int_signed=True)
+def s_expired(vc):
+    """now = the clock at the two reads inside is_expired (less than a second apart)"""
+    shape = vc.case("attributes", ["none", "max_age", "expires", "expires_unparsable", "expires_and_max_age"])
+    text = vc.sym_str("max_age_text")
+    vc.assume(_re_sym(vc, text, r"[\x00-\x7f]*", lambda z3: z3.Star(z3.Range(chr(0), chr(127)))))     # ASCII attribute value
+    exp_ts = vc.sym_int("expires_ts", lo=0)
+    pairs = []
+    if shape in ("expires", "expires_unparsable", "expires_and_max_age"):
+        pairs.append(("Expires", "some date"))
+    if shape in ("max_age", "expires_and_max_age"):
+        pairs.append(("Max-Age", text))
+    attrs = vc.new(CK + ":CookieAttrs", fields=tuple(pairs))
+    # date parsing is library behaviour: parsedate_tz gives None (unparsable) or a time tuple whose timestamp is expires_ts
+    vc.summary("email._parseaddr:parsedate_tz", lambda v, data: v.lift(None if shape == "expires_unparsable" else (1, 2, 3)))
+    vc.summary("email._parseaddr:mktime_tz", lambda v, t: v.lift(exp_ts))
+    out = vc.call(CK + ":is_expired", attrs)
+    vc.ensure("no_exception", out.ok)
+    if not out.ok:
+        return
+    r = out.result
+    if vc.mode == "sym":
+        import z3
+        names = [n for n in vc.ex.symbols if n == "now" or n.startswith("now#")]
+        if len(names) >= 2:
+            n1, n2 = z3.Real(names[0]), z3.Real(names[-1])
+            vc.assume(SBool(z3.And(n2 >= n1, n2 < n1 + 1)))
+        from pyvc.core import SFloat
+        now = SFloat(z3.Real(names[-1])) if names else None
+    else:
+        import time
+        now = time.time()
+    if shape == "none" or shape == "expires_unparsable":
+        vc.ensure("no_usable_expiry.not_expired", vc.eq(r, False))
+        return
+    if shape == "expires":
+        vc.ensure("expires.expired_iff_date_not_in_the_future", Iff(r, _le(vc, exp_ts, now)))
+        return
+    if shape == "max_age":
+        # RFC 6265 5.2.2: ["-"] 1*DIGIT; delta <= 0 => earliest time (expired now); anything else => attribute ignored
+        vc.ensure("max_age.negative_expires_now", Implies(is_negative_decimal(vc, text), r))
+        vc.ensure("max_age.zero_expires_now", Implies(all_zeros(vc, text), r))
+        vc.ensure("max_age.positive_keeps", Implies(And(is_decimal(vc, text), Not(all_zeros(vc, text))), Not(r)))
+        vc.ensure("max_age.not_a_number_ignored", Implies(Not(is_lenient_number(vc, text)), Not(r)))
+        return
+    # both: RFC 6265 5.3 step 3: Max-Age has precedence over Expires.  KF-C54-5: get_expiration_ts looks at Max-Age only
+    # when there is no Expires attribute (the whole class is the finding)
+    K5 = Or(is_decimal(vc, text), is_negative_decimal(vc, text))
+    want = Or(is_negative_decimal(vc, text), all_zeros(vc, text))
+    vc.ensure_kf("both.max_age_has_precedence", Implies(K5, Iff(r, want)), "KF-C54-5", K5)
+    vc.ensure("both.decided_by_expires_when_max_age_is_unusable", Implies(Not(is_lenient_number(vc, text)), Iff(r, _le(vc, exp_ts, now))))
+
+
+def _le(vc, ts, now):
+    if vc.mode == "native":
+        return ts <= now
+    import z3
+    return SBool(z3.ToReal(ts.t) <= now.t)
+
+
 # =============================================================================================
 # T2 (bounded): the real StickyCookie addon on response/request histories against an executable RFC 6265 reference
 
@@ -485,6 +576,7 @@ ASSUMPTIONS = [
     "T1 domain_match: host and Domain attribute are canonical ASCII lower-case text (RFC 6265 canonicalises both before matching), so str.lower() is the identity; case-insensitivity is exercised in T2 only",
     "T1 domain_match: Domain attribute non-empty after removing one leading dot (RFC 6265 5.2.3: empty value => attribute ignored / undefined)",
     "http.cookiejar.is_HDN is interpreted from the standard library's source (not trusted); re.Pattern.search for its IPV4_RE (r'\\.\\d+$', re.ASCII) is the SMT regular-language membership translated from CPython's own parse tree",
+    "T1 is_expired: Max-Age attribute value is ASCII; email.utils.parsedate_tz / mktime_tz are scripted (unparsable, or a date with symbolic timestamp); the two clock reads inside is_expired are less than a second apart; Python's int() leniency (sign '+', blanks, underscores) is left open",
     "T1 response/request: stickycookie.domain_match and path_match are arbitrary predicates with recorded arguments (their contracts are the scenarios domain_match / path_match); Set-Cookie parsing (Response.cookies), cookies.is_expired, flowfilter.match and cookies.format_cookie_header are abstracted (exercised for real in T2)",
     "all histories: the jar invariant 'an entry (domain, port, path) -> {name: value} was stored by a response whose ckey is that triple and whose host passed domain_match' is established by scenario response (one parsed cookie per call; the loop body treats each cookie independently) and used entry-wise by scenario request (the loop body treats each jar entry independently, so two entries with symbolic keys stand for any number)",
     "T1 request: jar with two entries (2 + 1 cookies) and symbolic keys; request target ASCII; the cookie path of a cookie without Path attribute is '/' (mitmproxy's choice; RFC 6265 5.1.4 default-path would be the directory of the setting request's path)",
@@ -545,7 +637,9 @@ def bounded(tier, seed):
     targets = ["/", "/foo", "/foo/bar", "/foobar", "/foo?x=1", "/fo"]
     dattrs = [None, "example.com", ".example.com", "a.example.com", ".evil.org", ".example.com.", "..example.com", ".0.1", ".Example.COM", "10.0.0.1"]
     pattrs = [None, "/", "/foo", "/foo/"]
-    expiries = [None, "Expires=Thu, 01 Jan 1970 00:00:00 GMT", "Max-Age=0", "Max-Age=3600"]
+    expiries = [None, "Expires=Thu, 01 Jan 1970 00:00:00 GMT", "Max-Age=0", "Max-Age=3600", "Max-Age=-1", "Max-Age=soon", "Max-Age=-0",
+                "Expires=Fri, 01 Jan 2100 00:00:00 GMT; Max-Age=0"]      # RFC 6265 5.3 step 3: Max-Age wins => expired
+    LIVE = (None, "Max-Age=3600", "Max-Age=soon")      # RFC 6265 5.2.2: a non-numeric Max-Age is ignored; <= 0 expires now
     b.rule = ("histories [response(host, port, target, Set-Cookie(name, value, Domain?, Path?, Expires/Max-Age?)) x 1..2, request(host, port, target)] on the real "
               "StickyCookie addon (filter '.*'), judged by an executable RFC 6265 reference: stored only if Domain matches the responding host, expired removed, "
               "attached only to requests that domain-, port- and path-match a live origin; host-only cookies only to the identical host; converse for plain host names; "
@@ -572,7 +666,7 @@ def bounded(tier, seed):
     histories += one[: (6000 if tier == "quick" else 120000)]
     # (2) set, then a second response (expire / overwrite / unrelated) from a related host, then request
     second = [r for r in resp_specs if r[0] in ("example.com", "a.example.com", "x.example.com.evil.org") and r[2] in (None, ".example.com", "example.com")]
-    first = [r for r in resp_specs if r[4] in (None, "Max-Age=3600") and r[0] in ("example.com", "a.example.com") and r[2] in (None, ".example.com", "example.com")]
+    first = [r for r in resp_specs if r[4] in LIVE and r[0] in ("example.com", "a.example.com") and r[2] in (None, ".example.com", "example.com")]
     two = [([r1, r2], q) for r1 in first for r2 in second for q in req_specs if q[0] in ("example.com", "a.example.com", "xexample.com")]
     rnd.shuffle(two)
     histories += two[: (3000 if tier == "quick" else 60000)]
@@ -597,7 +691,7 @@ def bounded(tier, seed):
                     key = (dattr if dattr is not None else host, port, pattr if pattr is not None else "/")
                     after = {k: dict(v) for k, v in sc.jar.items()}
                     stored = after.get(key, {}).get(name) == value
-                    expired = exp is not None and exp != "Max-Age=3600"
+                    expired = exp not in LIVE
                     ok = True if dattr is None else ref_domain_match(host, dattr)      # True / False / None (undefined)
                     if ok is False:
                         # RFC 6265 5.3 step 6: the cookie is ignored entirely (neither stored nor used to delete)
@@ -607,7 +701,9 @@ def bounded(tier, seed):
                     elif expired:
                         if name in after.get(key, {}):
                             undotted = dattr is not None and not dattr.startswith(".") and host.lower() != dattr.lower()
-                            b.fail("sticky.expired_cookie_removed.undotted_domain_from_subdomain[KF-C54-4]" if undotted else "sticky.expired_cookie_removed", inp, f"jar[{key}] = {after[key]}")
+                            both = exp.startswith("Expires=") and "Max-Age" in exp
+                            b.fail("sticky.expired_cookie_removed.undotted_domain_from_subdomain[KF-C54-4]" if undotted else
+                                   "sticky.expired_cookie_removed.max_age_overridden_by_expires[KF-C54-5]" if both else "sticky.expired_cookie_removed", inp, f"jar[{key}] = {after[key]}")
                         if key in after and not after[key]:
                             b.fail("sticky.empty_entry_dropped", inp, f"jar keeps empty entry {key}")
                     elif ok is True and not stored and (dattr is None or (dattr.startswith(".") and not _ref_is_ip(host.lower()) and host.lower() != dattr.lower().strip("."))):
